@@ -30,7 +30,11 @@ CONFIG = {
                    'functions (orderings rotated; all 6 in thorough), a '
                    'seeded sample of four-variable functions under all 24 '
                    'orderings, and all (variable, value) cofactors is judged '
-                   'on every assignment and for diagram shape.'),
+                   'on every assignment and for diagram shape.'
+                   ' Also: sparse operands over 4-5 variables, every function of'
+                   ' a 3-subset against every function of a 2-subset of four'
+                   ' variables, diagrams built from raw nodes with a variable'
+                   ' outside the ordering.'),
     'level_note': ('Trusted base: vmon/refbool.py (walker + truth-table '
                    'algebra on ints). Canonicity across histories is C16.'),
     'deciding': ['c17.and', 'c17.or', 'c17.xor', 'c17.invert', 'c17.restrict',
